@@ -584,6 +584,12 @@ func (f *fctx) applyContract(callee *ssa.Function, con *Contract, args []Term, p
 			}
 		}
 	}
+	if root := f.rootFctx(); root != nil {
+		if root.callRes == nil {
+			root.callRes = map[string][]Term{}
+		}
+		root.callRes[callee.Name()] = res
+	}
 	// additional cases: their ensures hold for arguments of the case's shape
 	// that satisfy the case's own requires and split ranges
 	for _, cc := range con.Cases {
